@@ -139,7 +139,14 @@ func genC15(r *rand.Rand, n int, emit func(string)) {
 			label = kt.String() + "/other-key-other-type"
 		case 5: // signature of the wrong length
 			raw, _ := opb.B64.DecodeString(s[2])
-			switch r.Intn(4) {
+			switch r.Intn(6) {
+			case 4, 5:
+				// the same r and s, each half widened with leading zero bytes (still even, still splits in the middle)
+				if kt != opb.Ed25519 {
+					raw = zeroPadHalves(raw, 1+r.Intn(3))
+				} else {
+					raw = append(raw, 0)
+				}
 			case 0:
 				raw = raw[:len(raw)-1]
 			case 1:
@@ -326,4 +333,14 @@ func smallXPoint(c elliptic.Curve, from int64) (*big.Int, *big.Int, bool) {
 		}
 	}
 	return nil, nil, false
+}
+
+// zeroPadHalves re-encodes r||s with k zero bytes in front of each half.
+func zeroPadHalves(raw []byte, k int) []byte {
+	h := len(raw) / 2
+	z := make([]byte, k)
+	out := append([]byte{}, z...)
+	out = append(out, raw[:h]...)
+	out = append(out, z...)
+	return append(out, raw[h:]...)
 }
